@@ -39,9 +39,13 @@ def _state_eq(a, b):
 
 
 def _set_prior(k, j):
+    """A generated prior state of the process-wide generator: seed k, j uniform draws and - for odd k+j - one normal
+    draw, which leaves a cached second Gaussian in the state (has_gauss = 1): that part of the state must survive too."""
     np.random.seed(k)
     if j:
         np.random.random_sample(j)
+    if (k + j) % 2:
+        np.random.normal()
     return np.random.get_state()
 
 
@@ -57,7 +61,8 @@ def body_helper(case, rec):
     from pyxel.util import set_random_seed
 
     before = _set_prior(case["k"], case["j"])
-    rec.cls("seed:none" if case["seed"] is None else "seed:int", "raises" if case["raises"] else "returns", "nested" if case["nested"] is not None else "flat")
+    rec.cls("seed:none" if case["seed"] is None else "seed:int", "raises" if case["raises"] else "returns", "nested" if case["nested"] is not None else "flat",
+            "prior_has_cached_gaussian" if before[3] else "prior_plain")
     rec.nt(case["seed"] is not None)
     inside = inner = None
     try:
@@ -76,7 +81,11 @@ def body_helper(case, rec):
         ref = np.random.RandomState(case["seed"])
         want = ref.random_sample(case["n"])
         rec.check(bool(np.array_equal(inside, want)), "draws_inside_differ_from_seeded_stream", f"seed {case['seed']}")
-        rec.check(_state_eq(before, after), "global_state_not_restored", f"seed {case['seed']} raises={case['raises']}")
+        rec.check(_state_eq(before, after), "global_state_not_restored", f"seed {case['seed']} raises={case['raises']} cached_gaussian_before={before[3]}")
+        # and what the caller draws next is what it would have drawn without the seeded block (normals use the cached value)
+        expect = np.random.RandomState()
+        expect.set_state(before)
+        rec.check(bool(np.array_equal(np.random.normal(size=3), expect.normal(size=3))), "later_draws_perturbed", f"seed {case['seed']}")
         if case["nested"] is not None:
             rec.check(bool(np.array_equal(inner, np.random.RandomState(case["nested"]).random_sample(3))), "draws_inside_differ_from_seeded_stream", "nested")
             rec.check(bool(np.array_equal(after_inner, ref.random_sample(2))), "nested_context_disturbed_outer_stream", "")
